@@ -9,3 +9,24 @@ CONTRACTS = []
 REFUTED_ON_THE_UNCHANGED_TREE = []      # not loaded: genuine violations of the property (see the notes of each entry)
 CLASS_SPECS = {}
 LEMMAS = []
+
+H = 'pywbem/_cim_http.py::'
+BYTES = Ref('bytes')
+CONN = Obj('WBEMConnection', _url=Str, _creds=Opt(TupleOf(Str, Str)), _timeout=Opt(Int), _conn_id=Opt(Str),
+           _operation_recorders=ListOf(('ref', 'BaseOperationRecorder')), session=Ref('Session'))
+HDRS = Rec(CIMOperation=Str, CIMMethod=Str, CIMObject=Str)
+
+stage_req_c = Contract('pywbem/_recorder.py::BaseOperationRecorder.stage_http_request', trusted=True, raises={},
+                       requires=[('the-headers-handed-to-the-recorders-carry-no-credentials',
+                                  "'Authorization' not in headers")])
+stage_resp1_c = Contract('pywbem/_recorder.py::BaseOperationRecorder.stage_http_response1', trusted=True, raises={})
+stage_resp2_c = Contract('pywbem/_recorder.py::BaseOperationRecorder.stage_http_response2', trusted=True, raises={})
+
+CONTRACTS.append(Contract(
+    H + 'wbem_request',
+    params={'conn': CONN, 'req_data': Str, 'cimxml_headers': HDRS, 'target_type': Str},
+    callees={'stage_http_request': stage_req_c, 'stage_http_response1': stage_resp1_c,
+             'stage_http_response2': stage_resp2_c},
+    ensures=[],
+    raises={k: Raises() for k in ('ConnectionError', 'TimeoutError', 'AuthError', 'HTTPError', 'HeaderParseError')},
+))
